@@ -167,7 +167,8 @@ class Gen:
         return ("BranchSum", (v, ("int", self.r.randint(0, 10)), n))
 
     MENU_SWITCHES = ("message_SwitchMenu", "message_SwitchMenu2")
-    KNOWN_OP_SWITCHES = ("message_SwitchMenu", "message_SwitchMenu2", "ProcessSpecial", "message_Menu", "main_EnterAdventure")
+    KNOWN_OP_SWITCHES = ("message_SwitchMenu", "message_SwitchMenu2", "ProcessSpecial", "message_Menu", "main_EnterAdventure",
+                         "SwitchDirection", "SwitchDirectionLives", "SwitchDirectionMark", "SwitchLives", "SwitchValue", "SwitchVariable")
 
     def swhdr(self):
         n = ("int", self.uid())
@@ -187,7 +188,7 @@ class Gen:
         if c == 5:
             return ("SwitchSector", ())
         if c == 6:
-            names = list(self.KNOWN_OP_SWITCHES) + ([] if self.c.switch_pairs == "decompilable" else ["SwitchDirection"])
+            names = list(self.KNOWN_OP_SWITCHES)
             return (self.r.choice(names), (n, self.intlike()))
         if self.r.random() < self.c.pos_p:
             return (f"swop_{n[1]}", (n, self.pos()))
